@@ -2,7 +2,11 @@
 import random
 from vf import Case
 
+from gen import ring
+
 ID = "C19"
+GEN = [ring.gen]
+tie_modules = ring.tie_modules      # one obligation module per translated ring-buffer function
 DRIVER = "drv_buffers"
 HARNESS = "h_buffers"
 QUICK_LEVEL = "thorough"      # the larger case set costs only seconds
@@ -16,14 +20,18 @@ EXHAUSTIVE = {"quick": False, "thorough": False}
 KEEP_PREFIX = 1
 ASSUMPTIONS = [
     "lean/Ufw/Model/Ring.lean is a hand transcription of the RING_BUFFER/RING_BUFFER_ITER macro bodies and src/ring-buffer-iter.c, "
-    "tied to the code by running both on the generated cases (ASan+UBSan, exact-size heap arrays)",
+    "tied to the code twice: the functions the macros expand to in src/octet-ring.c (advance_head/tail, size, empty, full, clear, get, put, "
+    "override_if_full) and rb_iter_done / rb_iter_advance are translated from clang's AST on every run (tools/gen/ring.py -> Gen/Ring.lean) and proved "
+    "equal to the model (Tie/Ring/*.lean; init and the iterator constructor are not translated: a loop, a struct return), and both are run on the "
+    "generated cases (ASan+UBSan, exact-size heap arrays)",
     "capacity >= 1 (capacity 0 divides by zero in C and is outside the statement)",
     "element values are opaque to the container (model uses Nat)",
 ]
 TRUSTED = ["correspondence harness harness/h_buffers.c + tools/lib/vf.py (values returned by get, size/empty/full, both iterator "
-           "sequences after every operation)"]
+           "sequences after every operation)",
+           "translator tools/gen/ring.py + preludes lean/Ufw/Tie/RingPre.lean, Tie/ByteBufPre.lean (size_t arithmetic, checked array access, sibling calls)"]
 DESIGN_REF = "DESIGN.md section 0.2 (as built) and section 8, C19"
-TECHNIQUE = "Lean 4 refinement proof (ring layout refines a bounded queue for every capacity and history; iterator theorems) + differential correspondence of model vs. C"
+TECHNIQUE = "Lean 4 refinement proof (ring layout refines a bounded queue for every capacity and history; iterator theorems); the model is tied to the source by translation (the expanded macro functions and the iterator functions translated from clang's AST on every run and proved equal to the model) and by differential correspondence of model vs. C"
 LEVEL_TEXT = ("Machine-checked proof: for every capacity >= 1 and every list of put/get/clear/override operations the Lean model of the "
               "RING_BUFFER macros keeps its representation invariant, never indexes outside the array and is observationally equal to a "
               "bounded queue (drop when full, evict oldest in override mode, get on empty = 0); size/empty/full equal the queue facts and the "
